@@ -12,6 +12,15 @@ import traceback
 from vf.c10_tasks import KillOnUnpickle, task  # noqa
 
 
+def _signum(name):
+    """'SIGKILL' -> signal.SIGKILL; 'SIGRTMIN+1' -> a real-time signal that has no member in signal.Signals."""
+    import signal as _s
+    if "+" in name:
+        base, off = name.split("+")
+        return getattr(_s, base) + int(off)
+    return getattr(_s, name)
+
+
 def main():
     spec = json.load(open(sys.argv[1]))
     out_path = sys.argv[2]
@@ -45,7 +54,7 @@ def main():
                 killed = []
                 for pid in victims:
                     try:
-                        os.kill(pid, getattr(signal, call.get("action", "SIGKILL")))
+                        os.kill(pid, _signum(call.get("action", "SIGKILL")))
                         killed.append(pid)
                     except OSError:
                         pass
@@ -77,8 +86,8 @@ def main():
                 rec["exc"] = type(e).__name__
                 rec["broken_pool_family"] = isinstance(e, BrokenProcessPool)
                 rec["msg"] = str(e)[:300]
-                if not isinstance(e, Exception):
-                    rec["tb"] = traceback.format_exc()[-800:]
+                if not isinstance(e, Exception) or not rec["broken_pool_family"]:
+                    rec["tb"] = traceback.format_exc()[-1500:]
             rec["wall"] = round(time.time() - t0, 3)
             write()
     finally:
